@@ -1,5 +1,6 @@
 """C09 - maildir names, flags, subdirectories and timestamps (flag algebra; destinations/timestamps: process level)."""
 import concurrent.futures as cf
+import os
 import random
 import re
 import vlib
@@ -121,6 +122,83 @@ def judge(ps, scen, r):
     return probs
 
 
+ACTS = [('move "%s/dstA"' % R, 'm', '%s/dstA'), ('move "%s/dstB"' % R, 'm', '%s/dstB'), ('flag new', 'f', 'new'), ('flag !new', 'f', 'cur'),
+        ('flags "F"', 'F', 'F')]
+
+
+def sequence_part(rep, tools, tier):
+    """Every sequence of <= 3 (thorough: 4) move/flag/flags actions, from new and from cur, on the real binary: the message must end in
+    (maildir of the last move, else its own) / (subdirectory of the last flag, else its own) - Spec.dest.  The sequences on which the pinned
+    code does not do that are exactly those outside Spec.destOK (proved: C09_destination_partial; exactness checked to length 6): known
+    finding F12, identified by `not destOK` AND the real result being the one the transcription of the pinned code computes."""
+    import itertools
+    maxlen = 3 if tier == 'quick' else 4
+    seqs = [s for n in range(1, maxlen + 1) for s in itertools.product(range(len(ACTS)), repeat=n)]
+    jobs = [(sub, s) for sub in ('new', 'cur') for s in seqs]
+
+    def one(job):
+        sub, s = job
+        cond = 'new' if sub == 'new' else '! new'
+        conf = 'maildir "%s/src" {\n\tmatch %s %s\n}\n' % (R, cond, ' '.join(ACTS[i][0] for i in s))
+        name = '1.host' if sub == 'new' else '1.host:2,S'
+        tree = {}
+        for d in ('src', 'dstA', 'dstB'):
+            tree.update(proc.maildir_tree(d, {}))
+        tree['src/%s/%s' % (sub, name)] = ws.msg(1)
+        scen = proc.Scenario(tools, conf, tree)
+        try:
+            r = scen.run(trace=False)
+            where = [rel for rel, v in r.final.items() if v[0] == 'file' and re.search(r'/(new|cur)/[^/]+$', rel) and ws.msg_id(v[1]) == 1]
+            root = scen.root
+            acts = [(ACTS[i][1] + (ACTS[i][2] % root if '%s' in ACTS[i][2] else ACTS[i][2])).encode() for i in s]
+            req = ' '.join(['dest', vlib.hexs(('%s/src' % root).encode()), vlib.hexs(sub.encode()), vlib.hexs(name.encode())] + [vlib.hexs(a) for a in acts])
+            return {'sub': sub, 'seq': [ACTS[i][0].replace(R + '/', '') for i in s], 'status': r.status, 'where': where, 'root': root, 'req': req,
+                    'fname': where[0].rsplit('/', 1)[1] if len(where) == 1 else None, 'has_flags': any(ACTS[i][1] == 'F' for i in s)}
+        finally:
+            scen.cleanup()
+
+    with cf.ThreadPoolExecutor(vlib.NCPU) as ex:
+        res = list(ex.map(one, jobs))
+    spec = vlib.run_batch([vlib.driver_path()], ['S ' + r['req'] for r in res])
+    model = vlib.run_batch([vlib.driver_path()], ['M ' + r['req'] for r in res])
+    stats = {'runs': len(res), 'documented_place': 0, 'known_F12': 0, 'violations': 0, 'corr': 0}
+    corr = []
+    for r, sp, mo in zip(res, spec, model):
+        ok, path = sp.split(' ')
+        want = vlib.unhex(path).decode('latin-1')
+        got = [os.path.join(r['root'], os.path.dirname(w)) for w in r['where']]
+        pinned = vlib.unhex(mo[3:]).decode('latin-1') if mo.startswith('OK ') else None
+        desc = {'source_subdir': r['sub'], 'actions': r['seq'], 'exit_status': r['status'], 'found_in': [g.replace(r['root'], R) for g in got],
+                'documented_destination': want.replace(r['root'], R), 'destOK': ok == '1'}
+        if len(got) != 1 or r['status'] != 0:
+            stats['violations'] += 1
+            rep.finding('unlisted', dict(desc, what='the message does not exist exactly once after the run, or the run failed'))
+            continue
+        if r['has_flags'] and 'F' not in letters(r['fname']) and got[0] == want:
+            stats['violations'] += 1
+            rep.finding('unlisted', dict(desc, what='flags "F" was not applied (name %r)' % r['fname']))
+            continue
+        if got[0] == want:
+            stats['documented_place'] += 1
+            if ok != '1' and pinned != got[0]:
+                corr.append(dict(desc, model_of_pinned_code=pinned))
+            continue
+        if ok == '1':
+            stats['violations'] += 1
+            rep.finding('unlisted', dict(desc, what='the message did not end in the documented destination'))
+        elif pinned == got[0]:
+            stats['known_F12'] += 1
+            rep.finding('dest-unmerged-entry', dict(desc, what='destination computed from the original path by an unmerged flag/flags/move entry'))
+        else:
+            stats['violations'] += 1
+            rep.finding('unlisted', dict(desc, model_of_pinned_code=(pinned or 'none').replace(r['root'], R),
+                                         what='wrong destination, and not the one the pinned code computes for this sequence (a different defect than F12)'))
+    if corr and not rep.violations:
+        stats['corr'] = len(corr)
+        rep.violation({'obligation': 'correspondence matches_append/matches_merge <-> Model.finalPlace on action sequences', 'examples': corr[:5]}, False)
+    return stats
+
+
 def process_part(rep, sc):
     tools = proc.Tools(sc)
     W = world.WorldCheck(sc, tools)
@@ -154,7 +232,7 @@ def process_part(rep, sc):
         rep.violation({'obligation': 'correspondence: the real run does not follow Model.mainP / ends in a different state (names, contents, '
                                      'modification times); the property oracle on the real tree found nothing wrong',
                        'disagreements': len(bad), 'examples': bad[:6]}, False)
-    return results
+    return results, sequence_part(rep, tools, rep.tier)
 
 
 def run(rep):
@@ -209,9 +287,13 @@ def run(rep):
     if bad and not rep.violations:
         rep.violation({'obligation': 'correspondence message_parse flags / new / old <-> Model', 'disagreements': len(bad),
                        'examples': [dict(c.readable(), implementation=ec.impl_core(c), model=c.model) for c in bad[:5]]}, False)
-    pres = process_part(rep, sc)
+    pres, seqstats = process_part(rep, sc)
     vlib.lean_conclude(rep)
     rep.coverage.update({
+        'action_sequences': seqstats,
+        'action_sequences_rule': 'every sequence of <= 3 (thorough 4) actions from {move A, move B, flag new, flag !new, flags "F"} from new and from '
+                                 'cur on the real binary; the final place against Spec.dest; sequences outside Spec.destOK that end where the '
+                                 'transcription of the pinned code says are the known finding F12, anything else wrong is a violation',
         'process_scenarios': [{k: v for k, v in r.items() if k != 'detail'} for r in pres],
         'process_rule': '%d runs of the real binary under the shim (pinned clock/pid/host/counter): move on one device and across devices, '
                         'flag in both directions, flags, move+flag, and destinations pre-populated with the next 1-5 candidate names for '
